@@ -320,7 +320,23 @@ func check05(c *Case, o *Obs, rec Rec) (vs []viol, inconclusive string) {
 	case sc.Pre == "trl" || len(sc.Trl) > 0:
 		preCls = ",after-SetTrailer"
 	}
+	// traffic dimensions: the call itself is compressed / the server has just
+	// served other traffic; the class keeps the shape of the status
+	traffic := ""
+	switch {
+	case c.After != "":
+		traffic = "after-" + c.After + "-traffic,"
+	case c.Gzip:
+		traffic = "gzip-call,"
+	}
 	add := func(obs, cls, what string) {
+		if traffic != "" {
+			if o.Hist != nil {
+				what += fmt.Sprintf(" [right before, the same mux served %d concurrent %s calls (%d as scripted, %d compressed replies seen)]", o.Hist.Calls, o.Hist.Kind, o.Hist.OK, o.Hist.CompFrames)
+			}
+			vs = append(vs, viol{pc + ":" + obs + ":" + traffic + strings.TrimPrefix(cls, traffic), what})
+			return
+		}
 		if c.Kind == "C05ctx" {
 			cls = "ctx-done"
 		}
@@ -358,6 +374,7 @@ func check05(c *Case, o *Obs, rec Rec) (vs []viol, inconclusive string) {
 	if c.Route != "" {
 		gen = "http-shape," + ctClass(c.ReqCT) + "," + acceptClass(c.Accept)
 	}
+	gen = traffic + gen
 	pv, stop := panicViols(c, o, gen)
 	vs = append(vs, pv...)
 	if o.Wedged && len(pv) == 0 {
@@ -809,8 +826,19 @@ func c05Variants(thorough bool) []variant {
 type c05Runner struct {
 	r       *mon.Run
 	env     *Env
+	envs    []*Env // the environments of flush (envs[0] == env), kept between phases
 	sampled map[string]bool
 	queue   []c05Job
+	histOK  map[string]int // history kind -> calls whose clients saw the scripted outcome
+}
+
+func (g *c05Runner) closeEnvs() {
+	for _, e := range g.envs {
+		if e != g.env {
+			e.Close()
+		}
+	}
+	g.envs = nil
 }
 
 func protoFamily(p string) string {
@@ -836,6 +864,8 @@ type c05Outcome struct {
 	obsKind  string // counter of what the client decoded
 	distinct string
 	sample   map[string]any
+	hist     *HistObs
+	comp     int // compressed reply frames the client of a gzip call saw
 }
 
 func runC05Job(env *Env, j c05Job) c05Outcome {
@@ -845,6 +875,10 @@ func runC05Job(env *Env, j c05Job) c05Outcome {
 	out.vs, out.inc = check05(c, o, rec)
 	out.ran = rec.Ran
 	out.panics = len(o.Panics)
+	out.hist = o.Hist
+	if c.Gzip {
+		out.comp = o.CompFrames
+	}
 	switch {
 	case o.WSClose:
 		out.obsKind = "ws_close_frames_observed"
@@ -868,6 +902,12 @@ func runC05Job(env *Env, j c05Job) c05Outcome {
 			cc = "code-in-range"
 		}
 		out.distinct = fmt.Sprintf("%s%s/%s/%s/after=%d/%s/%s/details=%v/%s", c.Target+":", protoFamily(c.Proto), c.Codec, c.Method, c.Script.Replies, cc, msgShape(c.Script.Msg)+sizeClass(c.Script.Msg), c.Script.Details, c.Kind+"/pre="+c.Script.Pre+"/hdr="+fmt.Sprint(len(c.Script.Hdr) > 0, c.Script.SendHdr, len(c.Script.Trl) > 0)+"/opt="+c.Opt+fmt.Sprintf("/hold=%v", c.Hold))
+		switch {
+		case c.After != "" && (o.Hist == nil || o.Hist.OK == 0):
+			out.distinct = "" // the earlier traffic did not take place: nothing new was observed
+		case c.Gzip || c.After != "":
+			out.distinct += fmt.Sprintf("/gzip=%v/after=%s", c.Gzip, c.After)
+		}
 	}
 	if c.Script.Code == 5 && j.label == "pct-middle" && c.Script.Details && c.Script.Replies <= 1 {
 		out.sample = map[string]any{"proto": c.Proto, "target": c.Target, "codec": c.Codec, "method": c.Method, "code": c.Script.Code, "msg": c.Script.Msg, "replies_before_status": c.Script.Replies,
@@ -893,14 +933,19 @@ func (g *c05Runner) flush() {
 	if len(g.queue) < 64 {
 		workers = 1
 	}
-	envs := []*Env{g.env}
-	for len(envs) < workers {
+	if len(g.envs) == 0 {
+		g.envs = []*Env{g.env}
+	}
+	for len(g.envs) < workers {
 		e, err := newEnv()
 		if err != nil {
 			break
 		}
-		defer e.Close()
-		envs = append(envs, e)
+		g.envs = append(g.envs, e)
+	}
+	envs := g.envs
+	if len(envs) > workers {
+		envs = envs[:workers]
 	}
 	outs := make([]c05Outcome, len(g.queue))
 	var wg sync.WaitGroup
@@ -930,6 +975,23 @@ func (g *c05Runner) flush() {
 		if out.obsKind != "" {
 			r.Count(out.obsKind, 1)
 		}
+		if c.Gzip {
+			r.Count("status_cells_of_gzip_calls", 1)
+			r.Count("gzip_call_compressed_reply_frames_seen", out.comp)
+		}
+		if h := out.hist; h != nil {
+			r.Count("status_cells_after_earlier_traffic", 1)
+			r.Count("history_calls_issued", h.Calls)
+			r.Count("history_calls_as_scripted", h.OK)
+			r.Count("history_calls_as_scripted_"+h.Kind, h.OK)
+			r.Count("history_calls_other_outcome", h.Unexpected)
+			r.Count("history_compressed_replies_seen", h.CompFrames)
+			r.Count("history_server_panics_not_judged", h.Panics)
+			if h.OK == 0 {
+				r.Count("status_cells_whose_history_did_not_take_place", 1)
+			}
+			g.histOK[h.Kind] += h.OK
+		}
 		if out.inc != "" {
 			r.Inconclusive(out.inc)
 		}
@@ -949,7 +1011,7 @@ func (g *c05Runner) flush() {
 
 // RunC05 is the status / error fidelity check.
 func RunC05(r *mon.Run) {
-	r.Rule = "a scripted handler behind a real Mux returns status (code, message, optional 2 details) before any reply or after 1 / 3 replies; one client per protocol observes the outcome: HTTP JSON/protobuf and Twirp (in-process and HTTP/1 socket), grpc-go over h2c, raw gRPC frames in-process and over h2c, gRPC-web binary/text (in-process and HTTP/1 socket), WebSocket (socket). Cases = (codes 0..16, 17, 18, 19, 31, 32, 63, 64, 100, 255, 256, 2^31-1, 2^31, 2^32-1 x 3 base messages) + (2-3 codes x every message of the message set: empty, ASCII, single bytes embedded in text, '%' at start/middle/end, multi-byte tails, 1 KiB, 70 KiB, 123/124-byte close-frame boundary, seeded random mixes of ASCII / '%' / control / multi-byte pieces), each with and without details, on every protocol x codec x method x reply-count variant, plus a class where the handler calls SetHeader / SendHeader / SetTrailer with custom metadata at entry or right before it returns the status, plus HTTP failures (handler errors on body-less GET and HttpBody upload routes, errors of the mux itself: no codec, no route, wrong verb, unknown method) under 11 request Content-Type x 11 Accept values (absent, registered, with parameters, other case, foreign, wildcard, non-matching, malformed), plus sequences (the request preceded on the same fresh mux by another client's request with the same Accept value and another Content-Type; the answer must equal the one a fresh mux gives to the request alone), plus a sweep of the status message length 0..40 on gRPC-web-text after 0..3 replies, plus Accept-Encoding request headers (gzip, identity, q=0 forms, lists) on the HTTP / Twirp failure classes with the body decoded per the response Content-Encoding, plus protobuf reply streams over HTTP failing after 0..3 replies with Accept absent / protobuf (length-prefixed replies followed by the unframed status document in the negotiated type, pinned from the unchanged tree), plus WebSocket clients that send Ping / unsolicited Pong frames before / after their data frame, plus a mux with ConnectionTimeoutOption(100ms) whose handler stays quiet for 400 ms before it returns its status (after 0..3 replies; WebSocket, gRPC, gRPC-web, HTTP), plus muxes built with small MaxSendMessageSize / MaxReceiveMessageSize options (64, 256 bytes) x long messages / details, plus client- and bidi-streaming gRPC clients (grpc-go, raw h2c) that keep their send side open until the status arrives (10 s watchdog + goroutine dump), plus a small class where the call's deadline has expired before the handler returns. Every class runs against the handler registered on the mux and (quick: reduced matrix) against the same handler on a real grpc.Server back-end that a second mux proxies through RegisterConn (codes up to 2^31-1). An execution is non-trivial when the scripted handler ran; distinct = (target, protocol, codec, method, replies before status, code class, message shape, details?)"
+	r.Rule = "a scripted handler behind a real Mux returns status (code, message, optional 2 details) before any reply or after 1 / 3 replies; one client per protocol observes the outcome: HTTP JSON/protobuf and Twirp (in-process and HTTP/1 socket), grpc-go over h2c, raw gRPC frames in-process and over h2c, gRPC-web binary/text (in-process and HTTP/1 socket), WebSocket (socket). Cases = (codes 0..16, 17, 18, 19, 31, 32, 63, 64, 100, 255, 256, 2^31-1, 2^31, 2^32-1 x 3 base messages) + (2-3 codes x every message of the message set: empty, ASCII, single bytes embedded in text, '%' at start/middle/end, multi-byte tails, 1 KiB, 70 KiB, 123/124-byte close-frame boundary, seeded random mixes of ASCII / '%' / control / multi-byte pieces), each with and without details, on every protocol x codec x method x reply-count variant, plus a class where the handler calls SetHeader / SendHeader / SetTrailer with custom metadata at entry or right before it returns the status, plus HTTP failures (handler errors on body-less GET and HttpBody upload routes, errors of the mux itself: no codec, no route, wrong verb, unknown method) under 11 request Content-Type x 11 Accept values (absent, registered, with parameters, other case, foreign, wildcard, non-matching, malformed), plus sequences (the request preceded on the same fresh mux by another client's request with the same Accept value and another Content-Type; the answer must equal the one a fresh mux gives to the request alone), plus a sweep of the status message length 0..40 on gRPC-web-text after 0..3 replies, plus Accept-Encoding request headers (gzip, identity, q=0 forms, lists) on the HTTP / Twirp failure classes with the body decoded per the response Content-Encoding, plus protobuf reply streams over HTTP failing after 0..3 replies with Accept absent / protobuf (length-prefixed replies followed by the unframed status document in the negotiated type, pinned from the unchanged tree), plus WebSocket clients that send Ping / unsolicited Pong frames before / after their data frame, plus a mux with ConnectionTimeoutOption(100ms) whose handler stays quiet for 400 ms before it returns its status (after 0..3 replies; WebSocket, gRPC, gRPC-web, HTTP), plus muxes built with small MaxSendMessageSize / MaxReceiveMessageSize options (64, 256 bytes) x long messages / details, plus client- and bidi-streaming gRPC clients (grpc-go, raw h2c) that keep their send side open until the status arrives (10 s watchdog + goroutine dump), plus a small class where the call's deadline has expired before the handler returns, plus two traffic dimensions: (1) the failing call is itself a compressed call (request messages with grpc-encoding gzip, replies compressed) on every gRPC-family variant x codes 0/5/13/17 x 6 message shapes + random messages; (2) earlier traffic: right before the status cell the same mux serves 6-12 concurrent calls of other clients of one kind - failed calls with long escaped messages, 48 KiB messages, WebSocket streams, HTTP bodies with Content-Encoding / Accept-Encoding gzip, compressed gRPC-web calls, compressed gRPC calls, a mix - then an uncompressed call fails with an ASCII / '%' / multi-byte / control-character / 1 KiB message on 15 protocol x codec x method variants (one phase per kind; two garbage collections between phases empty the process's sync.Pools so that a finding names the kind that preceded it; the earlier calls are counted, not judged). Every class runs against the handler registered on the mux and (quick: reduced matrix) against the same handler on a real grpc.Server back-end that a second mux proxies through RegisterConn (codes up to 2^31-1). An execution is non-trivial when the scripted handler ran; distinct = (target, protocol, codec, method, replies before status, code class, message shape, details?, compressed call?, kind of earlier traffic - only when that traffic took place as scripted)"
 	r.Floor = 150
 	env, err := newEnv()
 	if err != nil {
@@ -957,7 +1019,8 @@ func RunC05(r *mon.Run) {
 		return
 	}
 	defer env.Close()
-	g := &c05Runner{r: r, env: env, sampled: map[string]bool{}}
+	g := &c05Runner{r: r, env: env, sampled: map[string]bool{}, histOK: map[string]int{}}
+	defer g.closeEnvs()
 
 	msgs := allMsgs(r.Thorough())
 	rng := r.Rand("c05-messages")
@@ -1326,6 +1389,84 @@ func RunC05(r *mon.Run) {
 	}
 
 	g.flush()
+
+	// ---- traffic dimensions. The cells above run in a process that has served
+	// nothing but uncompressed, mostly small calls. A server process serves
+	// every kind of traffic, and what it keeps between calls (package-level
+	// pools, per-mux caches, connection state) is shared by all of them.
+
+	// (1) the failing call itself is a compressed call: request messages with
+	// grpc-encoding gzip (the replies before the status are then compressed
+	// too), on every gRPC-family variant
+	gzMsgs := []msgIn{{"plain ascii message", "ascii"}, {"50% done", "pct-middle"}, {"naïve café ✓", "utf8-tail"}, {"é at start, ascii after", "utf8-then-ascii"}, {"ab\ncd", "byte-0a"}, {repeatTo("1 KiB ü% ", 1023) + "!", "1KiB-escaped"}}
+	for i, n := 0, r.Pick(2, 12); i < n; i++ {
+		gzMsgs = append(gzMsgs, msgIn{randomMsg(rng), "random"})
+	}
+	for _, target := range []string{"", "proxy"} {
+		for _, v := range c05Variants(r.Thorough()) {
+			if !gzipCapable(v.proto) || target == "proxy" && !r.Thorough() && (sockTwin(v.proto) || v.replies == 3) {
+				continue
+			}
+			for _, code := range []uint32{0, 5, 13, 17} {
+				for mi, m := range gzMsgs {
+					if code == 0 && mi > 0 || code == 17 && mi > 1 {
+						continue
+					}
+					c := &Case{Kind: "C05", Proto: v.proto, Codec: v.codec, Method: v.method, Class: "gzip-call/" + m.label, Target: target, Gzip: true,
+						Script: Script{Code: code, Msg: m.s, Details: (mi+int(code))%2 == 0 && code != 0, Replies: v.replies, Pad: []int{0, 200, 3000}[mi%3]}}
+					if code == 0 && v.method != "Echo" && v.replies == 0 {
+						c.Script.Replies = 2
+					}
+					g.exec(c, c.Class)
+				}
+			}
+		}
+	}
+	g.flush()
+
+	// (2) earlier traffic: right before the status cell the same mux serves
+	// several concurrent calls of other clients - failing calls with long
+	// escaped messages, large messages, WebSocket streams, gzip HTTP bodies,
+	// compressed gRPC-web and gRPC calls, a mix of all. One phase per kind, so
+	// that a finding names the kind that precedes it; between phases two
+	// garbage collections empty the sync.Pools of the process (Go drops pooled
+	// objects after two collections), the state later phases start from is
+	// then what their own kind leaves behind.
+	histVariants := []variant{{"grpc", "proto", "Echo", 0}, {"grpc", "json", "SS", 1}, {"grpc-raw", "proto", "SS", 0}, {"grpc-raw", "json", "Echo", 0}, {"grpc-h2c", "proto", "Echo", 0},
+		{"grpcweb", "proto", "Echo", 0}, {"grpcweb", "json", "SS", 2}, {"grpcweb-text", "proto", "SS", 1}, {"grpcweb-sock", "proto", "SS", 0}, {"grpcweb-text-sock", "proto", "Echo", 0},
+		{"http", "json", "Echo", 0}, {"http", "proto", "SS", 0}, {"http-sock", "json", "Echo", 0}, {"twirp", "json", "Echo", 0}, {"ws", "json", "Bidi", 1}}
+	histMsgs := []msgIn{{"plain ascii message", "ascii"}, {"50% done", "pct-middle"}, {"naïve café ✓", "utf8-tail"}, {"ab\ncd then text", "byte-0a"}, {repeatTo("1 KiB ü% ", 1023) + "!", "1KiB-escaped"}}
+	for _, kind := range HistoryKinds {
+		runtime.GC()
+		runtime.GC()
+		msgs := append([]msgIn{}, histMsgs...)
+		for i, n := 0, r.Pick(1, 6); i < n; i++ {
+			msgs = append(msgs, msgIn{randomMsg(rng), "random"})
+		}
+		for _, target := range []string{"", "proxy"} {
+			for _, v := range histVariants {
+				if target == "proxy" && !r.Thorough() && sockTwin(v.proto) {
+					continue
+				}
+				for mi, m := range msgs {
+					for _, code := range []uint32{5, 13} {
+						if !r.Thorough() && (mi+int(code))%2 == 1 && (target == "proxy" || m.label == "ascii") {
+							continue
+						}
+						c := &Case{Kind: "C05", Proto: v.proto, Codec: v.codec, Method: v.method, Class: "after-" + kind + "/" + m.label, Target: target, After: kind,
+							Script: Script{Code: code, Msg: m.s, Details: code == 13, Replies: v.replies}}
+						g.exec(c, c.Class)
+					}
+				}
+			}
+		}
+		g.flush()
+		if g.histOK[kind] == 0 {
+			r.Inconclusive("the earlier traffic of kind " + kind + " never took place as scripted: its cells observed nothing")
+		}
+	}
+	runtime.GC()
+
 	r.Set("parallel_environments", "cases are executed on up to 6 independent environments; outcomes are applied in case-list order")
 
 	r.Assume("expected values are pinned tables (google/rpc/code.proto HTTP mapping, Twirp spec names, larking's documented WebSocket close codes) and the status the harness handler itself returned; decoders are protojson/proto, grpc-go's client, the harness frame parser and percent-decoder")
